@@ -71,6 +71,21 @@ def run(ctx):
     common.run_exact(ctx, [c for c in stops if c.expect])
     common.run_differential(ctx, [c for c in stops if not c.expect], common.proj_value,
                             classify=lambda c, r: 'a payload whose first message is malformed (or an empty payload) must be rejected' if r.startswith('ok ') else None)
+    # a handshake message whose 24-bit length has a non-zero top byte it cannot honour inside the record, with as many bytes
+    # *behind the record* as that length asks for: the record is confined to its own length, so the message is cut short and
+    # the record must be rejected - never decoded from what follows it (and never consumed beyond 5 + length)
+    over = []
+    for ht in (20, 16, 12, 14, 11, 1):
+        for blen in (0, 9, 300):
+            for top in (1, 2):
+                body = rng.randbytes(blen)
+                msg = bytes([ht]) + (top * 65536 + blen).to_bytes(3, 'big') + body
+                rec = bytes([22, 3, 3]) + len(msg).to_bytes(2, 'big') + msg
+                tail = rng.randbytes(top * 65536 + rng.choice((0, 1, 40)))
+                over.append(enc.Case('message_longer_than_its_record', ('tls_plaintext',), rec + tail, [], None))
+                over.append(enc.Case('message_longer_than_its_record', ('tls_parser',), rec + tail, [], None))
+    common.run_differential(ctx, over, common.proj_value,
+                            classify=lambda c, r: 'a message that declares more bytes than its record holds must be rejected, whatever follows the record' if r.startswith('ok ') else None)
     # records at and around every plausible size limit (2^14, the 2^14+256 cap), for every content type: the limit that
     # exists is the record cap and it does not depend on the content type
     S = core.span
